@@ -58,10 +58,17 @@ Callback(a, r, c) ==
     /\ UNCHANGED used
     /\ Log("Callback", a, r, c)
 
+(* the agent checks in (COMMAND_GET_JOB) and is handed what is queued for it.  A task is outstanding from the moment it is
+   issued, not from the moment it is handed out: the hand-out changes nothing about which ids are accepted - in particular it
+   does not bring back an id whose final callback was processed before the task was fetched *)
+HandOut(a) == /\ UNCHANGED <<tasks, used, open>>
+              /\ last' = [None EXCEPT !.op = "HandOut", !.a = a]
+              /\ Log("HandOut", a, 0, "")
 Next == /\ Len(hist) < MaxOps
         /\ \E a \in Agents, r \in Ids :
               \/ Issue(a, r)
               \/ \E c \in Classes : Callback(a, r, c)
+              \/ HandOut(a)
 
 Spec == Init /\ [][Next]_vars
 
